@@ -247,6 +247,50 @@ func init() {
 				one(ce.Name+":store[alice]:not-an-actor", sc2)
 			}
 		}
+		// (f) cyclic remote structures under every positive recursion limit
+		for _, limit := range []int{1, 2, 3, 4} {
+			for _, ct := range []string{"Collection", "OrderedCollection", "CollectionPage", "OrderedCollectionPage"} {
+				member := "items"
+				if strings.HasPrefix(ct, "Ordered") {
+					member = "orderedItems"
+				}
+				// delivery to a collection that lists itself, and to a two-cycle
+				sc := outboxScenario(M{"type": "Listen", "actor": alice(), "object": R1 + "/songs/1", "to": A{R1 + "/collections/self", R1 + "/collections/a"}}, func(sc *sim.Scenario) {
+					sc.Remote[R1+"/collections/self"] = sim.RemoteSpec{Doc: M{"@context": AS, "type": ct, "id": R1 + "/collections/self", member: A{R1 + "/collections/self", carol(), M{"type": ct, "id": R1 + "/collections/self"}}}}
+					sc.Remote[R1+"/collections/a"] = sim.RemoteSpec{Doc: M{"@context": AS, "type": ct, "id": R1 + "/collections/a", member: A{R1 + "/collections/b", dave()}}}
+					sc.Remote[R1+"/collections/b"] = sim.RemoteSpec{Doc: M{"@context": AS, "type": ct, "id": R1 + "/collections/b", member: A{R1 + "/collections/a", R1 + "/collections/b", erin()}}}
+					sc.Cfg.MaxDelivery = limit
+				})
+				one(fmt.Sprintf("cyclic-delivery:%s:limit=%d", ct, limit), sc)
+				sc2 := cloneScenario(sc)
+				sc2.Requests = []sim.Request{{Kind: "Send", URL: aliceOut(), Body: sc.Requests[0].Body}}
+				one(fmt.Sprintf("cyclic-delivery-send:%s:limit=%d", ct, limit), sc2)
+			}
+			// forwarding search through documents that refer to themselves / each other
+			for _, key := range []string{"inReplyTo", "object", "target", "tag"} {
+				sc := inboxScenario(M{"type": "Announce", "id": R1 + "/act/cyc", "actor": carol(), "to": A{alice() + "/followers"}, "object": R1 + "/notes/selfref", key: A{R1 + "/notes/p", R1 + "/notes/selfref"}}, func(sc *sim.Scenario) {
+					sc.Store[alice()+"/followers"] = M{"@context": AS, "type": "Collection", "id": alice() + "/followers", "items": A{dave()}}
+					sc.Remote[R1+"/notes/selfref"] = sim.RemoteSpec{Doc: M{"@context": AS, "type": "Note", "id": R1 + "/notes/selfref", key: A{R1 + "/notes/selfref", M{"type": "Note", "id": R1 + "/notes/selfref", key: R1 + "/notes/selfref"}}}}
+					sc.Remote[R1+"/notes/p"] = sim.RemoteSpec{Doc: M{"@context": AS, "type": "Note", "id": R1 + "/notes/p", key: R1 + "/notes/q"}}
+					sc.Remote[R1+"/notes/q"] = sim.RemoteSpec{Doc: M{"@context": AS, "type": "Note", "id": R1 + "/notes/q", key: A{R1 + "/notes/p", R1 + "/notes/q"}}}
+					sc.Cfg.MaxForward = limit
+				})
+				one(fmt.Sprintf("cyclic-forwarding:%s:limit=%d", key, limit), sc)
+			}
+			// handler: deep (not cyclic, JSON cannot be) object nesting
+			{
+				sc := baseScenario()
+				var doc interface{} = M{"type": "Note", "id": L + "/deep/leaf", "bto": carol()}
+				for d := 0; d < 200; d++ {
+					doc = M{"type": "Announce", "id": fmt.Sprintf("%s/deep/%d", L, d), "object": doc, "bcc": dave()}
+				}
+				top := doc.(M)
+				top["@context"] = AS
+				sc.Store[top["id"].(string)] = top
+				sc.Requests = []sim.Request{sim.GetReq("Handler", top["id"].(string))}
+				one(fmt.Sprintf("deep-handler:limit=%d", limit), sc)
+			}
+		}
 		counters["total_cases_enumerated"] = idx
 		jl.Done(counters)
 		return 0
